@@ -221,7 +221,9 @@ def kw_check(case, ctx):
 NUMBERS = ["0", "1", "42", "1e+5", "1E-5", "0x1p+3", "0xe+1", "1..2", "1.e+5", ".5", "1_0", "12ab", "1e", "1e+", "0x", "1.2.3", "1e+5-1", "1e5-1", "0b101",
            "1u", "1ull", "1.0f", "0x1.8p-3f", "00", "09", "1'0"]
 PUNCTS = clex.PUNCT
-WORDS = ["a", "b1", "_x", "int", "while", "u", "u8", "L", "U", "u8x", "Lx", "sizeof", "_Bool", "x_y", "abc123"]
+WORDS = ["a", "b1", "_x", "int", "while", "u", "u8", "L", "U", "u8x", "Lx", "sizeof", "_Bool", "x_y", "abc123",
+         # identifiers that look like encoding prefixes but are not (an identifier directly followed by a quote stays an identifier)
+         "U8", "L8", "u88", "u16", "UL", "Lu8", "uU", "u8u8", "l", "u8_", "LL", "R", "u8R"]
 LITS = ['"s"', '"a\\"b"', "'c'", "'\\''", 'L"w"', 'u8"x"', "u'y'", 'U"z"', '""', '"/* not a comment */"', '"// no"', "'\\\\'"]
 OTHERS = ["$", "@", "`"]
 SEPS = ["", "", " ", "  ", "\t", "/**/", "/* c */", " /*a*/ ", "\n", " \n ", "//x\n", "/*\n*/"]
@@ -240,6 +242,9 @@ def token_texts(draw):
         elif k <= 7:
             parts.append(draw(st.sampled_from(WORDS)))
         elif k == 8:
+            if draw(st.booleans()):
+                # an identifier (often prefix-like) written directly against a literal
+                parts.append(draw(st.sampled_from(["U8", "L8", "u88", "UL", "Lu8", "uU", "u8u8", "u8_", "LL", "R", "x", "u", "U", "L", "u8", "_u8", "8u"])))
             parts.append(draw(st.sampled_from(LITS)))
         else:
             parts.append(draw(st.sampled_from(OTHERS + [".", "..", "...", "....", ". .", "#", "##", "# #"])))
